@@ -40,7 +40,7 @@ func init() {
 		},
 		Run: run,
 		Floors: func(t string) map[string]int64 {
-			return map[string]int64{"pair.hop": 500, "pair.axis": 300, "pair.ordinary": 300, "pair.twin": 200, "pair.gridshift": 100, "history.built_from_used_references": 3000, "history.calls": 20000, "history.repeat_call": 2000, "history.to_registered_wgs84": 1000, "history.from_registered_wgs84": 1000, "history.failing_input": 1000, "pair.one_side_cannot_be_set_up": 100,
+			return map[string]int64{"pair.hop": 500, "pair.axis": 300, "pair.ordinary": 300, "pair.twin": 200, "pair.gridshift": 100, "pair.krovak": 100, "pair.short_towgs84_list": 100, "history.built_from_used_references": 3000, "history.calls": 20000, "history.repeat_call": 2000, "history.to_registered_wgs84": 1000, "history.from_registered_wgs84": 1000, "history.failing_input": 1000, "pair.one_side_cannot_be_set_up": 100,
 				"structure.failing_k": 10000, "structure.shared_backing_array": 1000, "structure.arbitrary_bit_patterns": 1000, "longpath.vertices>=2048": 15, "structure.nil_transformer": 1000, "structure.real_transformer": 1000, "structure.*Bounds": 100, "structure.GeometryCollection": 100, "structure.MultiPolygon": 100, "structure.MultiLineString": 100}
 		},
 	})
@@ -129,12 +129,15 @@ func fresh(src, dst string, in [2]float64) (o outcome) {
 func runHistory(c *core.Ctx) {
 	r := c.R
 	// choose the pair class
-	class := []string{"hop", "hop", "axis", "ordinary", "twin", "hop", "hop", "axis", "ordinary", "twin", "gridshift"}[r.Intn(11)]
+	class := []string{"hop", "hop", "axis", "ordinary", "twin", "hop", "hop", "axis", "ordinary", "twin", "gridshift", "krovak"}[r.Intn(12)]
 	var sdef, ddef *crsgen.Def
 	// a common geographic area so that both systems are usable at the same places
 	lonG, latG := r.Range(-150, 150), r.Range(10, 60)
 	if r.Bool() {
 		latG = -latG
+	}
+	if class == "krovak" {
+		lonG, latG = r.Range(14, 20), r.Range(48.2, 50.5) // where the Krovak projection is usable
 	}
 	area := crsgen.DatumArea{West: lonG - 1, East: lonG + 1, South: latG, North: latG}
 	projs := []string{"longlat", "merc", "merc_k", "lcc", "lcc_1sp", "aea", "eqdc", "tmerc", "utm"}
@@ -160,6 +163,14 @@ func runHistory(c *core.Ctx) {
 		}
 		if r.Bool() || sdef.Extra == "" {
 			ddef.Extra = " +axis=" + axes[r.Intn(len(axes))]
+		}
+	case "krovak":
+		// a Krovak system - whose set-up overrides the ellipsoid of the definition with Bessel's -
+		// written with any ellipsoid clause or none, and a datum shift; paired with any other system
+		sdef = crsgen.Gen(r, &crsgen.Options{Projs: []string{"krovak"}, DatKinds: []string{"towgs84_3", "towgs84_7", "named"}, KrovakAnyEll: true, NoPM: true})
+		ddef = genIn([]string{"named", "towgs84_3", "towgs84_7"})
+		if r.Bool() {
+			sdef, ddef = ddef, sdef
 		}
 	case "gridshift":
 		// two systems on one ellipsoid that both name the same grid-shift file: between the two no
@@ -191,6 +202,24 @@ func runHistory(c *core.Ctx) {
 		}
 	default:
 		sdef, ddef = genIn(nil), genIn(nil)
+	}
+	if class == "ordinary" && r.Chance(0.3) {
+		// a +towgs84 list with 1, 2, 4, 5 or 6 terms (the missing ones are zero): whatever the
+		// library makes of it, it must make the same of it every time, without panicking
+		n := []int{1, 2, 4, 5, 6}[r.Intn(5)]
+		terms := make([]string, n)
+		for i := range terms {
+			terms[i] = crsgen.F(math.Round(r.Range(-200, 200)))
+			if i >= 3 {
+				terms[i] = crsgen.F(math.Round(r.Range(-20, 20)) / 10)
+			}
+		}
+		if r.Bool() {
+			sdef.Datum, sdef.DatKind = " +towgs84="+strings.Join(terms, ","), "towgs84_3"
+		} else {
+			ddef.Datum, ddef.DatKind = " +towgs84="+strings.Join(terms, ","), "towgs84_3"
+		}
+		c.Count("pair.short_towgs84_list")
 	}
 	c.Count("pair." + class)
 	S, D := sdef.String(), ddef.String()
